@@ -346,10 +346,10 @@ def run_two_maps(t, pool, ids, chains, script, vt):
     storage = {'prim': 'Pair', 'args': [{'prim': 'Pair', 'args': [{'int': str(ids[0])}, {'int': str(ids[1])}]}, []]}
     ok, res = lib.call(Interpreter.run_code, {'prim': 'Unit'}, storage, michelson_to_micheline(src), shell=StubShell(table), block_id='head')
     if not ok:
-        return f'run_code raised {type(res).__name__}: {res}'[:300], src
+        return f'run_code raised {type(res).__name__}: {res}'[:300], src, None
     operations, new_storage, lazy_diff, stdout, error = res
     if error is not None:
-        return f'run_code failed: {error}'[:300], src
+        return f'run_code failed: {error}'[:300], src, None
     # reference
     cur = [dict(chains[0]), dict(chains[1])]
     want = []
@@ -372,29 +372,37 @@ def run_two_maps(t, pool, ids, chains, script, vt):
         obs_list = args[-1] if isinstance(args[-1], list) else []
         got = [None if o['prim'] == 'None' else vt.decode_micheline(o['args'][0]) for o in obs_list]
         got.reverse()
+        observers = [x for _, x in script if x[0] != 'update']
+        out = {'obs': [('bool', g == 1) if x[0] == 'mem' else ('opt', g) for g, x in zip(got, observers)] if len(got) == len(observers) else None,
+               'slots': []}
+        why = None
         if got != want:
             i = next((i for i in range(min(len(got), len(want))) if got[i] != want[i]), None)
-            return (f'observation {i} ({script[[j for j, (_, x) in enumerate(script) if x[0] != "update"][i]] if i is not None else "count"}) is '
-                    f'{got[i] if i is not None else len(got)}, the layered dictionary of that big_map gives {want[i] if i is not None else len(want)}'), src
+            why = (f'observation {i} ({script[[j for j, (_, x) in enumerate(script) if x[0] != "update"][i]] if i is not None else "count"}) is '
+                   f'{got[i] if i is not None else len(got)}, the layered dictionary of that big_map gives {want[i] if i is not None else len(want)}')
         uni = {json.dumps(V.value_micheline(v), sort_keys=True): v for v in pool}
         for which in (0, 1):
             d = next((x for x in lazy_diff if x['kind'] == 'big_map' and str(x['id']) == str(ids[which])), None)
             if d is None or d['diff']['action'] != 'update':
-                return f'no update diff for big_map {ids[which]}', src
+                return f'no update diff for big_map {ids[which]}', src, None
             store = {script_expr(k): z for k, z in chains[which].values()}
+            items, removed = [], []
             for u in d['diff']['updates']:
                 key = uni.get(json.dumps(lib.canon_micheline(V.norm_out(t, u['key'])), sort_keys=True))
                 if key is None or u['key_hash'] != script_expr(key):
-                    return f'diff of big_map {ids[which]} has a foreign key or a wrong key_hash', src
+                    return f'diff of big_map {ids[which]} has a foreign key or a wrong key_hash', src, None
                 if 'value' in u:
                     store[u['key_hash']] = vt.decode_micheline(u['value'])
+                    items.append((key, u['key_hash'], store[u['key_hash']]))
                 else:
                     store.pop(u['key_hash'], None)
-            if store != {script_expr(k): z for k, z in cur[which].values()}:
-                return f'the diff of big_map {ids[which]} applied to its on-chain content does not give its final dictionary', src
+                    removed.append((key, u['key_hash']))
+            out['slots'].append((ids[which], items, removed))
+            if why is None and store != {script_expr(k): z for k, z in cur[which].values()}:
+                why = f'the diff of big_map {ids[which]} applied to its on-chain content does not give its final dictionary'
     except (KeyError, IndexError, TypeError, ValueError, AssertionError) as e:
-        return f'unexpected output shape ({type(e).__name__}: {e})', src
-    return None, src
+        return f'unexpected output shape ({type(e).__name__}: {e})', src, None
+    return why, src, (out if out['obs'] is not None else None)
 
 
 def gen_two_maps(rng):
@@ -507,6 +515,37 @@ def coq_instr(ins):
             'get': lambda: f'(BIGet {k})', 'mem': lambda: f'(BIMem {k})'}[ins[0]]()
 
 
+def xs_instrs(full_script):
+    """store script of a single-map history with forks: the map is slot 0; a fork appends a copy (slot 1), updates it and
+    drops the copy (slot 1) or the original (slot 0, the copy becomes slot 0)"""
+    o = lambda z: lib.copt(None if z is None else cZ(z))  # noqa: E731
+    out = []
+    for ins in full_script:
+        if ins[0] == 'fork':
+            out.append('(XDup 0%nat)')
+            out.extend(f'(XUpdate 1%nat {V.value_coq(u[1])} {o(u[2])})' for u in ins[2])
+            out.append('(XDrop 0%nat)' if ins[1] else '(XDrop 1%nat)')
+        else:
+            out.append(xs_one(0, ins))
+    return out
+
+
+def xs_one(slot, ins):
+    o = lambda z: lib.copt(None if z is None else cZ(z))  # noqa: E731
+    k = V.value_coq(ins[1])
+    s = f'{slot}%nat'
+    return {'update': lambda: f'(XUpdate {s} {k} {o(ins[2])})', 'gau': lambda: f'(XGetAndUpdate {s} {k} {o(ins[2])})',
+            'get': lambda: f'(XGet {s} {k})', 'mem': lambda: f'(XMem {s} {k})'}[ins[0]]()
+
+
+def xs_slot(idv, items, removed):
+    return ('(' + cZ(idv) + ', ' + clist(f'({V.value_coq(k)}, {V.cbt(h)}, {cZ(z)})' for k, h, z in items) + ', '
+            + clist(f'({V.value_coq(k)}, {V.cbt(h)})' for k, h in removed) + ')')
+
+
+XS_IN = 'text_tables * list (val * bytes) * list (Z * list (bytes * Z)) * list (Z * list (val * Z)) * list xs_instr'
+
+
 def coq_obs(ob):
     return f'(BOOpt {lib.copt(None if ob[1] is None else cZ(ob[1]))})' if ob[0] == 'opt' else f'(BOBool {cbool(ob[1])})'
 
@@ -575,14 +614,13 @@ def run(ctx: lib.Ctx) -> None:
             ctx.dist['on-chain falsy/empty value'] += 1
         if isinstance(out, str):
             why = out
-            coq_out = '(nil, nil, nil)'
+            coq_out = '(nil, nil)'
             coq_bad_marker = True
         else:
             why = oracle(t, pool, ptr, chain, lit, script, out, vt)
             coq_bad_marker = False
             coq_out = ('(' + clist(coq_obs(o) for o in out['obs']) + ', '
-                       + clist(f'({V.value_coq(k)}, {V.cbt(h)}, {cZ(z)})' for k, h, z in out['items']) + ', '
-                       + clist(f'({V.value_coq(k)}, {V.cbt(h)})' for k, h in out['removed']) + ')')
+                       + clist([xs_slot(ptr if ptr is not None else -1, out['items'], out['removed'])]) + ')')
         if why and reported < 3:
             reported += 1
             ctx.violation('big_map: ' + why,
@@ -592,6 +630,11 @@ def run(ctx: lib.Ctx) -> None:
         chtbl = clist(f'({V.cbt(script_expr(k))}, {cZ(z)})' for k, z in chain.values()) if ptr is not None else 'nil'
         inp = (f'({V.tables_coq(pool)}, {khtbl}, {chtbl}, {clist(f"({V.value_coq(k)}, {cZ(z)})" for k, z in lit)}, '
                f'{clist(coq_instr(i) for i in script)})')
+        if not vt.ticket:
+            # store form: the forks are executed by the model too (DUP / DROP of slots)
+            lit_coq = clist(f"({V.value_coq(k)}, {cZ(z)})" for k, z in lit)
+            inp = (f'({V.tables_coq(pool)}, {khtbl}, {clist([f"({cZ(ptr)}, {chtbl})"]) if ptr is not None else "nil"}, '
+                   f'{clist([f"({cZ(ptr if ptr is not None else -1)}, {lit_coq})"])}, {clist(xs_instrs(full_script))})')
         if vt.ticket:
             # only the consuming MEM is observable; the emitted diff belongs to the fresh big_map put back into the storage
             tcases.append((inp, clist(coq_obs(o) for o in out['obs']) if not isinstance(out, str) else 'nil'))
@@ -599,10 +642,19 @@ def run(ctx: lib.Ctx) -> None:
         else:
             cases.append((inp, coq_out))
             meta.append((t, pool, ptr, chain, lit, script, out, why, src, vt))
-    # ---- two on-chain big_maps with different ids and overlapping keys in one run (oracle (B) only)
+    # ---- two on-chain big_maps with different ids and overlapping keys in one run
+    twocases, twometa = [], []
     for _ in range(ctx.n(40, 500)):
         t, pool, ids, chains, script2, vt = gen_two_maps(rng)
-        why2, src2 = run_two_maps(t, pool, ids, chains, script2, vt)
+        why2, src2, out2 = run_two_maps(t, pool, ids, chains, script2, vt)
+        if out2 is not None and not why2:
+            khtbl2 = clist(f'({V.value_coq(k)}, {V.cbt(script_expr(k))})' for k in pool)
+            chs = clist('(' + cZ(ids[w]) + ', ' + clist(f'({V.cbt(script_expr(k))}, {cZ(z)})' for k, z in chains[w].values()) + ')' for w in (0, 1))
+            init2 = clist(f'({cZ(ids[w])}, nil)' for w in (0, 1))
+            ins2 = clist(xs_one(0 if w == 'A' else 1, i) for w, i in script2)
+            twocases.append((f'({V.tables_coq(pool)}, {khtbl2}, {chs}, {init2}, {ins2})',
+                             '(' + clist(coq_obs(o) for o in out2['obs']) + ', ' + clist(xs_slot(*sl) for sl in out2['slots']) + ')'))
+            twometa.append((t, pool, ids, chains, script2, vt, src2))
         ctx.case(('two', t, ids, tuple(map(repr, script2))), nontrivial=True, kind='two-big_maps',
                  sample={'key_type': V.type_src(t), 'ids': ids, 'history': [f'{w}: {_show(i)}' for w, i in script2][:10]})
         if why2 and reported < 3:
@@ -657,9 +709,17 @@ def run(ctx: lib.Ctx) -> None:
     tick_future = lit_pool.submit(V.par_mismatches, ctx, 'bigmapticket', IMPORTS, 'fun x => fst (fst (bm_case x))', 'list_eqb bm_obs_eqb',
                                   'text_tables * list (val * bytes) * list (bytes * Z) * list (val * Z) * list bm_instr', 'list bm_obs',
                                   tcases, 400)
-    bad = V.par_mismatches(ctx, 'bigmap', IMPORTS, 'bm_case', 'bm_case_eqb',
-                           'text_tables * list (val * bytes) * list (bytes * Z) * list (val * Z) * list bm_instr', 'bm_case_out',
-                           cases, shard=ctx.n(60, 160))
+    bad = V.par_mismatches(ctx, 'bigmap', IMPORTS, 'xs_case', 'xs_case_eqb', XS_IN, 'xs_case_out',
+                           cases + twocases, shard=ctx.n(70, 160))
+    two_bad = [i - len(cases) for i in bad if i >= len(cases)]
+    bad = [i for i in bad if i < len(cases)]
+    if two_bad and reported == 0:
+        t, pool, ids, chains, script2, vt, src2 = twometa[two_bad[0]]
+        ctx.violation('implementation no longer corresponds to the model the theorems are about',
+                      {'correspondence': 'C15/two on-chain big_maps in one run vs Michelson.BigMap.xs_case (store of big_map values)',
+                       'key_type': V.type_src(t), 'ids': list(ids), 'history': [f'{w}: {_show(i)}' for w, i in script2],
+                       'model': ctx.coq_eval(IMPORTS, f'xs_case {twocases[two_bad[0]][0]}')[:3000], 'disagreements': len(two_bad)}, found=False)
+        reported += 1
     tbad = tick_future.result()
     lbad = [i for i in lit_future.result() if lmeta[i][0]]
     lit_pool.shutdown()
@@ -676,8 +736,8 @@ def run(ctx: lib.Ctx) -> None:
     if bad and reported == 0:
         t, pool, ptr, chain, lit, script, out, why, src, vt = meta[bad[0]]
         ctx.violation('implementation no longer corresponds to the model the theorems are about',
-                      {'correspondence': 'C15/BigMapType.get,update,aggregate_lazy_diff via run_code vs Michelson.BigMap.bm_case',
+                      {'correspondence': 'C15/BigMapType.get,update,DUP,aggregate_lazy_diff via run_code vs Michelson.BigMap.xs_case',
                        **describe(t, ptr, chain, lit, script, vt), 'observed': out,
-                       'model': ctx.coq_eval(IMPORTS, f'bm_case {cases[bad[0]][0]}')[:3000], 'disagreements': len(bad)}, found=False)
+                       'model': ctx.coq_eval(IMPORTS, f'{"bm_case" if vt.ticket else "xs_case"} {cases[bad[0]][0]}')[:3000], 'disagreements': len(bad)}, found=False)
     ctx.extra['cases'] = len(cases)
     ctx.extra['instructions_executed'] = sum(len(m[5]) for m in meta)
